@@ -157,6 +157,11 @@ pub fn run(ctx: &mut Ctx) {
         let mut r = ctx.rng_for(0, i);
         let pts = paths::random_points(&mut r);
         let mode = MODES[r.below(4)];
+        if i % 2 == 1 {
+            // the shared buffers still hold an unrelated borrowed curve
+            paths::dirty(&mut ctx.rng_for(9, i), &mut bufs);
+            ctx.count("computed_after_a_borrowed_curve");
+        }
         let nat = Curve::new(mode, &pts, None, &mut bufs);
         let nd = nat.dist();
         let l = match r.below(10) {
